@@ -57,6 +57,8 @@ type Verifier struct {
 	opaqueCalls      bool
 	escaped          map[*Object]bool
 	contains         map[*Object][]Value
+	opaqueNames      map[string]bool
+	allowPanic       bool
 	opaqueGlobals    map[*ssa.Global]*Object
 	initLike         bool
 	globalArrLen     map[*Object]int64
